@@ -120,6 +120,51 @@ Section TableFacts.
     unfold tbl_adds in *. simpl. apply IH. apply nodup_tbl_add. exact H.
   Qed.
 
+  Lemma total_const : forall a s l, NoDup l ->
+    total a (map (fun x => (x, s)) l) = if memN a l then s else zero.
+  Proof.
+    intros a s l. induction l as [|x r IH]; intro H; simpl; [reflexivity|].
+    inversion H as [|? ? Hx Hr]; subst. specialize (IH Hr).
+    unfold memN in *. simpl. rewrite (N.eqb_sym a x). destruct (N.eqb_spec x a) as [E|E]; simpl.
+    - subst x. rewrite IH. assert (M : existsb (N.eqb a) r = false) by (apply memN_false; exact Hx).
+      rewrite M. apply add_0_r.
+    - exact IH.
+  Qed.
+
+  (* sums over the voters of a full profile *)
+  Definition sumS (l : list S) : S := fold_right add zero l.
+
+  Lemma sumS_app : forall l1 l2, sumS (l1 ++ l2) = add (sumS l1) (sumS l2).
+  Proof.
+    intros l1 l2. induction l1 as [|x r IH]; simpl; [symmetry; apply add_0_l|].
+    rewrite IH. apply add_assoc.
+  Qed.
+
+  Lemma sumS_perm : forall l1 l2, Permutation l1 l2 -> sumS l1 = sumS l2.
+  Proof.
+    intros l1 l2 H. induction H; simpl.
+    - reflexivity.
+    - rewrite IHPermutation. reflexivity.
+    - rewrite !add_assoc. rewrite (add_comm y x). reflexivity.
+    - congruence.
+  Qed.
+
+  Lemma map_repeat' : forall {A B} (f : A -> B) x n, map f (repeat x n) = repeat (f x) n.
+  Proof. intros A B f x n. induction n; simpl; [reflexivity|rewrite IHn; reflexivity]. Qed.
+
+  (* accumulate over multiplicity.items() = sum over the expanded profile *)
+  Lemma total_profile : forall (ev : order -> N -> list (N * S)) (g : order -> S) p a,
+    (forall om, In om p ->
+       total a (ev (fst om) (snd om)) = sumS (repeat (g (fst om)) (N.to_nat (snd om)))) ->
+    total a (flat_map (fun om => ev (fst om) (snd om)) p) = sumS (map g (expand p)).
+  Proof.
+    intros ev g p a. induction p as [|om p IH]; intro H; [reflexivity|].
+    simpl flat_map. rewrite total_app.
+    change (expand (om :: p)) with (repeat (fst om) (N.to_nat (snd om)) ++ expand p).
+    rewrite map_app, sumS_app, map_repeat'. rewrite IH by (intros; apply H; right; assumption).
+    rewrite H by (left; reflexivity). reflexivity.
+  Qed.
+
   (* ---- max() and the comprehension ---- *)
   Lemma best_of_ge : forall l x,
     leb x (best_of leb x l) = true /\ forall y, In y l -> leb y (best_of leb x l) = true.
